@@ -16,7 +16,7 @@ pub fn prop() -> Prop {
         check,
         quick_runs: 12_000,
         both_profiles: false,
-        rule: "a run = one simulated world executed twice under identical input, arrival times and clocks: (presentation) any traffic incl. channel faults, option sets differing only in -i, -o, -c, -u, -M, -D, log level (stand-in for -l) or -O; (update-method) histories of DF4/5/11/17 frames whose carried values are all valid, with and without -U; non-trivial = both executions applied at least two frames and (update-method) at least one existing row was updated; distinct = distinct (script, second option vector) pairs",
+        rule: "a run = one simulated world executed twice under identical input, arrival times and clocks: (presentation) any traffic incl. channel faults, option sets differing only in -i, -o, -c, -u, -M (one or two formats), -D, log level (stand-in for -l) or -O, in 30 % of the runs under a -f list common to both executions; (update-method) histories of DF4/5/11/17 frames whose carried values are all valid, with and without -U; non-trivial = both executions applied at least two frames and (update-method) at least one existing row was updated; distinct = distinct (script, second option vector) pairs",
         level_text: "seeded differential simulation, only meaningful under deterministic replay: row-by-row equality of the tables after every event between the two executions (every field for presentation options, every field but distance for -O; callsign, altitude, squawk, position, ground speed, track, vertical rate, category, surveillance status for -U)",
     }
 }
